@@ -17,6 +17,12 @@ PRESERVING = {
     ("std::pin::Pin", "new_unchecked"), ("std::pin::Pin", "new"), ("std::result::Result", "and"),
     ("std::result::Result", "inspect_err"), ("std::result::Result", "inspect"),
     ("std::option::Option", "transpose"), ("std::result::Result", "transpose"),
+    # a bool / reference that still says whether the call succeeded
+    ("std::result::Result", "is_ok"), ("std::result::Result", "is_err"), ("std::option::Option", "is_some"),
+    ("std::option::Option", "is_none"), ("std::result::Result", "as_ref"), ("std::option::Option", "as_ref"),
+    ("std::result::Result", "as_mut"), ("std::option::Option", "as_mut"), ("std::option::Option", "filter"),
+    ("std::result::Result", "err"), ("std::option::Option", "as_deref"), ("std::result::Result", "as_deref"),
+    ("std::option::Option", "copied"), ("std::option::Option", "cloned"),
 }
 
 
